@@ -5,7 +5,7 @@
 
 use std::sync::Mutex;
 
-use e5_harness::*;
+use crate::harness::*;
 
 use crate::corpus::*;
 use crate::oracle::*;
